@@ -21,10 +21,12 @@ FINDINGS = [
      "non-uniform distribution weights are ignored in ensemble means except for aberration coefficients on the apply_ctf path "
      "(Probe normalises every member after the weights were multiplied in; BeamTilt/Aperture/envelopes discard the weights) — design-level, not a small repair"),
     # C04 -------------------------------------------------------------------------------------------------
-    ("C04", "C04/step/nonincrease-potential", "case.get('slice_type') == 'potential'",
+    ("C04", "C04/step/nonincrease-potential", "case.get('slice_type') == 'potential' and 'largest I_after/I_before over' in detail and "
+     "float(detail.split(' = ')[1].split(' ')[0]) <= 1.5",
      "conventional_multislice_step band-limits exp(i sigma V) after exponentiation, so |T'| > 1 locally and the total intensity can grow "
      "(measured +4e-5 .. +29% per step); the un-band-limited transmission path never increases intensity"),
-    ("C04", "C04/pipeline/nonincrease", "case.get('mode') == 'pipeline'",
+    ("C04", "C04/pipeline/nonincrease", "case.get('mode') == 'pipeline' and 'largest I(k+1)/I(k) = ' in detail and "
+     "float(detail.split('largest I(k+1)/I(k) = ')[1].split(' ')[0]) <= 1.5",
      "same cause as C04/step/nonincrease-potential observed through Probe/Waves.multislice thickness series (+5e-5 .. 3e-4 per slice)"),
     # C06 -------------------------------------------------------------------------------------------------
     ("C06", "C06/reduce/exit-waves-equal-probe-multislice", "case.get('potential') in ('fp_mean', 'ensemble_mean')",
@@ -33,7 +35,7 @@ FINDINGS = [
      "eager SMatrixArray.reduce never averages over ensemble_mean axes / leaves singleton axes (shape mismatch with lazy and with Probe)"),
     ("C06", "C06/reduce/lazy-equals-eager", "case.get('potential') in ('fp_mean', 'ensemble_mean')",
      "eager and lazy PRISM reduction disagree in shape for ensemble_mean potentials (see the two entries above)"),
-    ("C06", "C06/no-exception", "case.get('kind') == 'interp'",
+    ("C06", "C06/no-exception", "case.get('kind') == 'interp' and 'IndexError' in detail and 'out of bounds' in detail and 'abtem/prism/s_matrix.py' in detail",
      "interpolated S-matrix reduction raises IndexError in batch_crop_2d for probe positions whose crop window wraps around the array edge"),
     # C08 -------------------------------------------------------------------------------------------------
     ("C08", "C08/translate-pixels/infinite-roll/pbc-false", "case.get('atoms', {}).get('pbc') is False",
@@ -58,23 +60,23 @@ FINDINGS = [
     ("C16", "C16/Images.interpolate/fft-same-grid-identity", "case.get('target') == 'same_sampling'",
      "Images.interpolate(sampling=image.sampling) changes the grid when extent/sampling is 6.000000000000001 (ceil); the repair conflicts with an existing test that encodes ceil(l/d), so it is recorded, not fixed"),
     # C18 -------------------------------------------------------------------------------------------------
-    ("C18", "C18/no-exception", "case.get('kind') == 'validate'",
+    ("C18", "C18/no-exception", "case.get('kind') == 'validate' and 'Object cannot be automatically chunked' in detail",
      "_auto_chunks raises 'Object cannot be automatically chunked' although a valid chunking exists when an explicit int chunk exceeds its dimension next to a size-1 'auto' dimension (current_chunks not clamped)"),
     # C19 -------------------------------------------------------------------------------------------------
     ("C19", "C19/axes/linear-coordinates-reassemble", "case.get('kind') in ('images', 'waves')",
      "blocks of an array object keep the parent's LinearAxis/ScanAxis offset (LinearAxis has no __getitem__), so block coordinates do not reassemble to the original ones"),
     ("C19", "C19/axes/type-label-units-kept", "case.get('kind') == 'atoms_ensemble'",
      "AtomsEnsemble blocks carry UnknownAxis instead of FrozenPhononsAxis (deliberate in _from_partitioned_args)"),
-    ("C19", "C19/no-exception", "case.get('kind') == 'dummy_phonons'",
+    ("C19", "C19/no-exception", "case.get('kind') == 'dummy_phonons' and 'AssertionError' in detail and 'generate_blocks' in detail",
      "DummyFrozenPhonons.generate_blocks raises AssertionError (0-d partition args for a 1-d ensemble shape)"),
-    ("C19", "C19/no-exception", "case.get('kind') == 'grid_scan' and list(case.get('shape', [])) == [1, 1]",
+    ("C19", "C19/no-exception", "case.get('kind') == 'grid_scan' and list(case.get('shape', [])) == [1, 1] and 'scan extent must be positive' in detail",
      "GridScan with gpts=(1,1) and endpoint=True has zero sampling; partitioning raises 'scan extent must be positive'"),
     # C27 -------------------------------------------------------------------------------------------------
     ("C27", "C27/structure-factor/forbidden-reflections-are-zero", "case.get('centring') in ('half_x', 'half_y', 'half_z') and case.get('centering_arg') == 'auto'",
      "relative_positions_for_centering uses half-cell shifts along one axis for A/B/C; crystals with such a translation are auto-detected as A/B/C and non-zero reflections are dropped "
      "(correcting the table makes F lattices ambiguous in auto_detect_centering and breaks an existing test, so it is recorded)"),
     # C28 -------------------------------------------------------------------------------------------------
-    ("C28", "C28/no-exception", "str(case.get('family', '')).startswith('multislice')",
+    ("C28", "C28/no-exception", "str(case.get('family', '')).startswith('multislice') and '_evaluate_propagator_array' in detail",
      "MultislicePtychographicOperator with >= 2 slices calls FresnelPropagator._evaluate_propagator_array, which does not exist"),
     ("C28", "C28/fourier_projection/amplitude-equals-measured", "str(case.get('family', '')).startswith('mixed')",
      "MixedStatePtychographicOperator._fourier_projection divides by the summed intensity: NaN wherever it is exactly zero (constant / band-limited exit waves, second application)"),
@@ -95,10 +97,12 @@ FINDINGS = [
     ("C29", "C29/expand_dims/values", "case.get('form') in ('negative', 'unsorted')",
      "expand_dims normalises negative positions against the old shape and inserts metadata sequentially"),
     ("C29", "C29/expand_dims/axes", "case.get('form') in ('negative', 'unsorted')", "same as above"),
-    ("C29", "C29/no-exception", "case.get('op') == 'expand_dims' and case.get('form') in ('negative', 'unsorted')", "same as above (raises)"),
-    ("C29", "C29/no-exception", "case.get('op') == 'reduce' and case.get('keepdims')",
+    ("C29", "C29/no-exception", "case.get('op') == 'expand_dims' and case.get('form') in ('negative', 'unsorted') and any(m in detail for m in "
+     "('number of values for ordinal axis', 'Number of slice thicknesses must match', 'number of miller indices must be equal'))", "same as above (raises)"),
+    ("C29", "C29/no-exception", "case.get('op') == 'reduce' and case.get('keepdims') and 'number of values for ordinal axis' in detail",
      "reductions with keepdims=True over an ordinal axis raise (n-valued axis entry kept for a length-1 dimension)"),
-    ("C29", "C29/no-exception", "case.get('op') == 'getitem' and (case.get('has_none') or case.get('has_adv'))",
+    ("C29", "C29/no-exception", "case.get('op') == 'getitem' and (case.get('has_none') or case.get('has_adv')) and any(m in detail for m in "
+     "('only 0-dimensional arrays can be converted', 'Too many indices for potential array'))",
      "indexing PotentialArray / IndexedDiffractionPatterns / eager adv_mixed with None or lists raises"),
     # C31 -------------------------------------------------------------------------------------------------
     ("C31", "C31/poisson_noise/lazy-equals-eager-any-chunking", "True",
@@ -113,7 +117,7 @@ FINDINGS = [
     ("C37", "C37/laplace/eigenvalue", "case.get('isotropic') is False",
      "finite-difference Laplacian uses prefactor 1/prod(sampling) and the same coefficients along x and y: wrong operator for anisotropic sampling"),
     # C38 -------------------------------------------------------------------------------------------------
-    ("C38", "C38/no-exception", "case.get('fft', 'fftw') == 'fftw' and (case.get('input') in ('view', 'dask') or case.get('transform') == 'member_in_place')",
+    ("C38", "C38/no-exception", "case.get('fft', 'fftw') == 'fftw' and (case.get('input') in ('view', 'dask') or case.get('transform') == 'member_in_place') and 'Invalid input alignment' in detail",
      "FFTW objects are planned on an aligned dummy and updated with the caller's array: 'Invalid input alignment' for 8-byte-aligned views (numpy backend fine)"),
     ("C38", "C38/simulation/backend-independent", "case.get('pipeline') == 'prism' and case.get('precision') == 'float64'",
      "PRISM ignores the precision setting (S-matrix hard-coded complex64), so float64 runs are only single-accurate and backends differ by 1e-7"),
